@@ -202,15 +202,18 @@ def parse_sequential(raw):
         elif line.startswith("q "):
             cur["steps"].append({"q": list(map(int, line.split(" ")[1:]))})
         elif line.startswith("Q "):
-            d = {}
-            rest = line[2:]
-            i_it, i_sh = rest.index(" iter="), rest.index(" shape=")
-            for kv in rest[:i_it].split(" "):
-                a, b = kv.split("=")
-                d[a] = b
-            d["iter"] = [tuple(map(int, x.split(":"))) for x in rest[i_it + 6:i_sh].split(" ") if x]
-            d["shape"] = rest[i_sh + 7:]
-            cur["steps"][-1].update(d)
+            try:
+                d = {}
+                rest = line[2:]
+                i_it, i_sh = rest.index(" iter="), rest.index(" shape=")
+                for kv in rest[:i_it].split(" "):
+                    a, b = kv.split("=")
+                    d[a] = b
+                d["iter"] = [tuple(map(int, x.split(":"))) for x in rest[i_it + 6:i_sh].split(" ") if x]
+                d["shape"] = rest[i_sh + 7:]
+                cur["steps"][-1].update(d)
+            except (ValueError, IndexError):
+                cur["end"] = "truncated"      # the harness died in the middle of a line
         elif line.startswith("endcase"):
             cur["end"] = line[8:].strip()
         elif line.startswith("monitor functor_bad"):
@@ -275,6 +278,9 @@ def check_sequential(exe, v, cases, workdir, stats, shape_model=None):
             viol.append(("%s: harness output truncated" % name, {"case": c}, None))
             continue
         for i, (op, s) in enumerate(zip(ops, o["steps"])):
+            if "iter" not in s:
+                viol.append(("%s: harness output truncated (crash of the real container)" % name, {"case": dict(c, threads=[ops[:i + 1]])}, None))
+                break
             st["sequential_ops"] += 1
             st["quiescent_points"] += 1
             exp = reference_step(state, op[0], op[1], op[2], kind, fam)
